@@ -230,6 +230,33 @@ def main():
                         run.violation(f"grid:{name}", f"{name} on rfftfreq({n_}, {dt}) at fc={c['c2']}/2 df, bandwidth={c['b']} df: got {g}, "
                                       f"property-level answers {allowed}", dict(kind="smooth-grid", op=name, n=n_, dt=dt, c2=c["c2"], b=c["b"]))
                 run.case(("grid", name, c["c2"], c["b"]) if len(c["res"][ka]) == 1 else None)
+    # ---------------- an exactly representable grid: 0.25 Hz steps, centres on eighths, bandwidths multiples of 0.25 ------
+    # every difference f - fc and bandwidth / 2 is exact in binary, so samples ON the window edge are decided exactly:
+    # the rectangular kernel is symmetric - both edges in or both out - and a sample outside the window has weight 0
+    # whatever its size (the 1e18 outlier must not leak into windows that do not contain it)
+    fx = ii * 0.25
+    for c in [c for c in res.cases if isinstance(c, dict) and "c2" in c]:
+        fc, bw = c["c2"] * 0.125, c["b"] * 0.25
+        got = both("linear_rectangular", fx, spec, np.array([fc]), bw)[:, 0]
+        for g, key in ((got[0], "symA"), (got[1], "symB")):
+            allowed = [v[0] / v[1] for v in c["res"][key]] + ([0.0] if c["centreBelowZero"] else [])
+            if not any(abs(g - a) <= RTOL * abs(a) + 1e-12 for a in allowed):
+                both_edges = sum(1 for i in range(1, M + 1) if abs(2 * i - c["c2"]) == c["b"])
+                run.violation("grid-exact:linear_rectangular:edges", f"linear_rectangular on the exact grid i/4 Hz at fc={fc}, bandwidth={bw} "
+                              f"({both_edges} sample(s) exactly on the window edge): got {g}, a symmetric window gives {allowed}",
+                              dict(kind="smooth-grid-exact", c2=c["c2"], b=c["b"]))
+        # outlier outside the window: sample 1 (0.25 Hz) = 1e18
+        if abs(2 * 1 - c["c2"]) > c["b"] and not c["centreBelowZero"]:
+            spec_out = spec.copy()
+            spec_out[:, 1] = 1e18
+            for name in ("linear_rectangular", "linear_triangular"):
+                g0 = both(name, fx, spec, np.array([fc]), bw)[:, 0]
+                g1 = both(name, fx, spec_out, np.array([fc]), bw)[:, 0]
+                if not np.allclose(g0, g1, rtol=RTOL, atol=0):
+                    run.violation(f"grid-exact:{name}:outside-sample-leaks", f"{name} at fc={fc}, bandwidth={bw}: replacing the sample at 0.25 Hz (outside the window) "
+                                  f"by 1e18 changes the result from {g0.tolist()} to {g1.tolist()}", dict(kind="smooth-grid-outlier", c2=c["c2"], b=c["b"], op=name))
+        run.case(("grid-exact", c["c2"], c["b"]))
+
     # ---------------- vectors of centre frequencies: the operator is the pointwise map --------------------
     # (spec: the smoothed value is defined per centre - SmoothGrid / Smoothing evaluate one centre at a time; a call with
     #  a vector of centres, in ANY order and with repetitions, is the sequence of the single-centre values)
